@@ -180,7 +180,7 @@ func (r *popRun) violateShape(sh c09Shape, clause, msg string) {
 }
 
 func c09Shapes(c *Ctx) {
-	ns := []int{8}
+	ns := []int{5, 8} // an odd and an even population size (delta coding halves the population)
 	stolen := []int{0, 2, 3, 5, 10}
 	if !c.Quick() {
 		ns = []int{5, 8, 12}
